@@ -22,6 +22,9 @@ struct TimeGen {
     last_dt: i64,
     /// only intervals inside [lo, hi] (no special or related intervals)
     plain: bool,
+    /// when non-zero every interval is a small whole multiple of this many nanoseconds (a fixed-rate
+    /// loop): sample ages then land exactly ON window and period boundaries
+    grid: i64,
 }
 impl TimeGen {
     fn new(rng: &mut Rng) -> Self {
@@ -46,9 +49,15 @@ impl TimeGen {
             3 => (100_000_000, 10_000_000_000),
             _ => (1_000_000_000, 14_400_000_000_000),
         };
-        TimeGen { t, lo, hi, last_dt: 0, plain: false }
+        TimeGen { t, lo, hi, last_dt: 0, plain: false, grid: 0 }
     }
     fn step(&mut self, rng: &mut Rng) -> i64 {
+        if self.grid > 0 {
+            let dt = self.grid * *rng.pick(&[1, 1, 1, 2, 3]);
+            self.last_dt = dt;
+            self.t += dt;
+            return self.t;
+        }
         if self.plain {
             let dt = rng.log_uniform(self.lo, self.hi);
             self.last_dt = dt;
@@ -194,6 +203,9 @@ fn header_for(plan: &mut Plan, kind: &str, rng: &mut Rng) {
     };
     plan.set("um", um);
     plan.set("us", us);
+    // in a fifth of the runs the caller itself keeps looking at the node's inputs (shared borrows of the
+    // very References the node reads through are alive during every update and read)
+    plan.set("hold_inputs", rng.chance(0.2) as i64);
 }
 
 /// The generic history generator. `profile`:
@@ -267,6 +279,13 @@ pub fn gen_node(prop: &str, kind: &str, profile: u8, tier: Tier, rng: &mut Rng, 
         tg.lo = (w / 16).max(1);
         tg.hi = (w / 2).max(2).max(tg.lo);
     }
+    if matches!(kind, "ma_f" | "ma_q") && !long_run && rng.chance(0.12) {
+        // a fixed-rate loop whose period divides the window: the oldest sample is exactly one window old
+        // again and again (which side of the boundary it falls on is part of the documented behaviour)
+        let step = *rng.pick(&[1i64, 1_000, 1_000_000, 20_000_000, 1_000_000_000]) * rng.range(1, 9);
+        plan.set("window", step * rng.range(1, 8));
+        tg.grid = step;
+    }
     if matches!(kind, "ma_f" | "ma_q") && long_run {
         let w = plan.get("window").max(1000);
         plan.set("window", w);
@@ -279,6 +298,7 @@ pub fn gen_node(prop: &str, kind: &str, profile: u8, tier: Tier, rng: &mut Rng, 
         tg.lo = 1_000_000;
         tg.hi = 100_000_000_000;
         tg.plain = true;
+        tg.grid = 0;
     }
     // the far end of the time axis: the whole history within a minute or so of i64::MAX (short steps,
     // so that nothing runs off the end); no shift twin there
@@ -288,6 +308,7 @@ pub fn gen_node(prop: &str, kind: &str, profile: u8, tier: Tier, rng: &mut Rng, 
         tg.lo = 1;
         tg.hi = 1_000_000_000;
         tg.plain = true;
+        tg.grid = 0;
         if matches!(kind, "ma_f" | "ma_q") {
             // windows from nanoseconds to hours: `stamp + window` would leave the axis, `stamp - window` not
             plan.set("window", rng.log_uniform(1, 14_400_000_000_000));
